@@ -113,7 +113,7 @@ func (c *Check) EngineError(msg string) {
 // MaxUnownedNondeterminism: executions that did not reproduce because the implementation itself resolved something at
 // random (a select with two ready cases that no gate separates) are pruned and reported, not fatal, up to this many
 // per run; beyond it the run is an engine error.
-const MaxUnownedNondeterminism = 8
+const MaxUnownedNondeterminism = 24
 
 // Nondeterminism records one execution that did not reproduce when it was run again with the same decisions. The
 // execution and everything below it is left out of the exploration; the evidence says so (exhaustive=false).
